@@ -277,6 +277,11 @@ pub fn campaigns(ctx: &Ctx) -> Stats {
         let strat = move || (recipe_strategy(len), prop::collection::vec(any::<u8>(), 1..64)).boxed();
         st.merge(ctx.run_prop(name, total / 2, strat, move |(prog, choices)| Some(Case12 { base: elaborate(&cfg, prog), choices: choices.clone() })));
     }
+    for (name, p) in [("programs-with-large-dimensions", Profile::LargeDims), ("programs-with-wide-magnitudes", Profile::WideMagnitudes)] {
+        let cfg = base_cfg(false, t).with_profile(p, t == Tier::Thorough, crate::exec::IS_F32);
+        let strat = move || (recipe_strategy(len), prop::collection::vec(any::<u8>(), 1..64)).boxed();
+        st.merge(ctx.run_prop(name, crate::histcase::profile_total(t, p), strat, move |(prog, choices)| Some(Case12 { base: elaborate(&cfg, prog), choices: choices.clone() })));
+    }
     st
 }
 
